@@ -12,7 +12,17 @@
    db/database.go) only LOGS a storage error.  The write is acknowledged, the document is stored, but the
    principal keeps its cached channel / role set: a revocation (or grant) made by the acknowledged write is not
    visible to subsequent reads of the principal until an unrelated invalidation.  In the model this is an
-   [Inval] operation; with a fault on it "success => the whole effect is visible" is false. *)
+   [Inval] operation; with a fault on it "success => the whole effect is visible" is false.
+
+   (3) finding of the round that brought the auxiliary documents in (signature
+   swallowed-failure:promoted-revision-body-unreadable).  db/crud.go storeOldBodyInRevTreeAndUpdateCurrent ->
+   db/document.go promoteNonWinningRevisionBody: when an update makes a non-winning revision the current one (the
+   winner is tombstoned) and that revision's body is stored out of line (_sync:rb:<digest>), the body is loaded with
+   getNonWinningRevisionBody, which turns a storage error of the load into "no body".  The write goes on, commits the
+   promoted revision without its body (the bucket document keeps the bytes of the tombstoned winner), reports
+   success, and deleteRemovedRevisionBodies then deletes the body document: the body of the promoted revision is
+   lost for good.  In the model this is a [ReadBody] operation; with a fault on it "success => the whole effect is
+   visible" is false. *)
 From SG Require Import Base.Prelude C11.Atomicity C11.AtomicityProofs C11.MultiProofs.
 
 Lemma C11_error_implies_unchanged_refuted :
@@ -23,3 +33,9 @@ Lemma C11_success_implies_whole_effect_visible_refuted :
   exists tr k, no_posterr tr /\ snd (run_request tr [k]) = ROk /\ committed (fst (run_request tr [k])) = true /\
                effect_visible (fst (run_request tr [k])) = false.
 Proof. exact inval_failure_swallowed. Qed.
+
+Lemma C11_success_implies_whole_effect_visible_refuted_by_body_read :
+  exists tr k, no_posterr tr /\ nth_error tr k = Some ReadBody /\
+               snd (run_request tr [k]) = ROk /\ committed (fst (run_request tr [k])) = true /\
+               effect_visible (fst (run_request tr [k])) = false /\ aux_deleted (fst (run_request tr [k])) = true.
+Proof. exact body_read_failure_swallowed. Qed.
